@@ -17,6 +17,8 @@ def setup():
 
 def wire_impl(v):
     """canonical wire form of a value computed by the implementation (None: a foreign object)"""
+    if isinstance(v, np.ndarray) and v.size == 1:
+        v = v.ravel()[0]          # 0-d and 1x1 arrays are unwrapped (DESIGN §2.2)
     if isinstance(v, np.generic):
         v = v.item()
     if v is EMPTY:
